@@ -57,6 +57,28 @@ CHECKS = {
    note="Trusted: TLC, JSON bridge, yada as a library, std UTF-8. Lexicons the compiler refuses are skipped (C06). Word number = CSV row number.",
    technique="TLA+ spec DictIndex + TLC model checking; S->I replay through real compile+load+lookup; I->S trace validation (Trace_DictIndex)",
    design="4 C04"),
+ "C05": dict(
+   category="model_checking",
+   text="DictRecord.tla states what a lexicon row declares (Expected), what the compiler stores (forms equal to the headword elided, references by id), the reader and the "
+        "accessors; TLC checks RoundTrip for a target row ranging over the whole value lattice (key vs headword, forms equal/different, dictionary form */self/other, "
+        "empty/non-empty arrays, string lengths across the 1-byte/2-byte length-prefix boundary); every enumerated lexicon is compiled by the real DictBuilder twice with a fixed "
+        "timestamp (byte equality), loaded aligned and at an odd address, and every word read back and compared with TLC's expected values; generated lexicons (126..300 UTF-16 unit "
+        "strings, astral characters, \\u escapes, 0/127-item arrays, numeric and inline references, extreme parameters) with random non-square matrices are trace-validated, incl. every matrix cell.",
+   note="Trusted: TLC, JSON bridge, the CSV rendering of the drivers. Byte layout is not compared (only read-back observables). Inline references judged only where key = headword. "
+        "Dictionaries without the synonym section are covered on the model only.",
+   technique="TLA+ spec DictRecord (RoundTrip) + TLC; S->I replay through real compile/load/read-back; I->S trace validation (Trace_DictRecord)",
+   design="4 C05"),
+ "C11": dict(
+   category="model_checking",
+   text="On DictRecord.tla TLC checks SubsetStable: for all 1024 field subsets (closed as InfoSubset::normalize closes them) and every requested field, the accessor value equals "
+        "that of a full load, for target rows over the value lattice, with and without synonym section; the transcribed reader has the light/heavy field distinction and the early "
+        "exit. Each enumerated lexicon is compiled and read under all 1024 subsets with the real reader; every word of the repository dictionaries (system + 2 user) is read under "
+        "subsets and analyses under subsets x modes x three set_mode/set_subset orders are compared with the full-field analysis (boundaries + word ids when no path-rewrite plugin "
+        "or surface/POS/normalized are requested; partition always).",
+   note="Trusted: TLC, JSON bridge. Requests are closed by InfoSubset::normalize before reaching the reader (as every front end does). Unrequested fields are never compared. "
+        "A genuine defect found here was repaired (see known_findings.json, fixed).",
+   technique="TLA+ spec DictRecord (SubsetStable over 2^10 subsets) + TLC; S->I replay under all subsets; I->S trace validation (Trace_Subset)",
+   design="4 C11"),
 }
 
 NOT_YET = "no check registered yet in this revision (work in progress; see DESIGN.md section 8 build order)"
